@@ -3,7 +3,7 @@
    Go code on every run by the correspondence of Raft/Wire.v.run_case with the real `core` objects. *)
 From Coq Require Import List NArith ZArith.
 From BLB Require Import Lib.LTS Raft.Core Raft.Wire Raft.NodeElect Raft.NodeMono Raft.NodeLeader Raft.NodeConf Raft.Election Raft.ElectionFixed Raft.ElectionExample Raft.Mechanisms C02.Proofs.
-From BLB Require Import Raft.LogMatchLists Raft.LogMatchNode Raft.LogMatch Raft.Completeness Raft.LogMatchExample.
+From BLB Require Import Raft.LogMatchLists Raft.LogMatchNode Raft.LogMatch Raft.Completeness Raft.LogMatchExample Raft.SMSafetyNode Raft.SMSafety Raft.SMSafetyExample.
 Import ListNotations.
 Open Scope N_scope.
 
@@ -252,11 +252,53 @@ Theorem log_terms_bounded_and_monotone_partial :
 Proof. exact Raft.Completeness.log_terms_sys. Qed.
 Print Assumptions log_terms_bounded_and_monotone_partial.
 
+(* [PARTIAL] clause 4, state machine safety up to terms, same system and restricted alphabet as log_matching, nodes start with nothing
+   handed to the state machine: at every moment of every run each entry a node hands to TakeNewlyCommitted is an entry of that
+   node's own log at that moment, and two entries handed out by any two nodes at any two moments of the run, the second
+   moment reached from the first by any further schedule, that have the same index and the same term are the same entry
+   with the same type and payload. Missing for state_machine_safety: applied entries of equal index have equal terms, which
+   is leader completeness plus the commit bookkeeping *)
+Theorem state_machine_safety_partial_same_index_and_term :
+  forall (bm : list nid) (be : N) (σ0 σ1 σ2 : sys) (sched1 sched2 : list sys_event),
+    linit σ0 -> (forall s, In s (sy_nodes σ0) -> n_commits s = []) ->
+    run sys sys_event (lstep (length (sy_nodes σ0)) bm be) σ0 sched1 σ1 ->
+    run sys sys_event (lstep (length (sy_nodes σ0)) bm be) σ1 sched2 σ2 ->
+    forall a b x y,
+      In a (sy_nodes σ1) -> In b (sy_nodes σ2) -> In x (n_commits a) -> In y (n_commits b) ->
+      (In x (p_log (n_p a)) /\ In y (p_log (n_p b))) /\
+      (e_index x = e_index y -> e_term x = e_term y -> x = y).
+Proof. exact Raft.SMSafety.applied_entries_agree_sys. Qed.
+Print Assumptions state_machine_safety_partial_same_index_and_term.
+
+(* [PARTIAL] clause 4 at node level, for every node state, every event other than SnapshotDone and the delivery of an InstallSnapshot, every
+   crash point: the entries handed to the state machine by the event are entries of the log the node holds at the end of the event *)
+Theorem applied_entries_come_from_own_log_partial :
+  forall s ev k crashed st s',
+    ev_applied_ok ev -> run_event_crash (settle s) ev k = Ret (crashed, st, s') ->
+    forall x, In x (n_commits s') -> In x (p_log (n_p s')).
+Proof. exact Raft.SMSafetyNode.applied_in_own_log. Qed.
+Print Assumptions applied_entries_come_from_own_log_partial.
+
+(* [FULL] non-vacuity of state_machine_safety_partial_same_index_and_term: the run of log_matching_nonvacuous continued by the delivery of the
+   follower's acknowledgement, on which the leader commits and applies entries 1 and 2, and of the leader's next AppEnts with commit
+   index 2, on which the follower applies them: two different nodes hand the entry of index 2 and term 2 to the state machine at
+   two different moments *)
+Theorem state_machine_safety_partial_nonvacuous :
+  exists σ0 σ1 σ2 sched1 sched2 a b x,
+    linit σ0 /\ (forall s, In s (sy_nodes σ0) -> n_commits s = []) /\
+    run sys sys_event (lstep (length (sy_nodes σ0)) [1; 2] 5) σ0 sched1 σ1 /\
+    run sys sys_event (lstep (length (sy_nodes σ0)) [1; 2] 5) σ1 sched2 σ2 /\
+    In a (sy_nodes σ1) /\ In b (sy_nodes σ2) /\ n_id a <> n_id b /\
+    In x (n_commits a) /\ In x (n_commits b) /\ e_index x = 2 /\ e_term x = 2.
+Proof. exact Raft.SMSafetyExample.applied_entries_nonvacuous. Qed.
+Print Assumptions state_machine_safety_partial_nonvacuous.
+
 (* NOT YET PROVED (statements kept visible; listed in props/C02.json not_yet_proved):
    clause 3  leader_completeness : an entry, once committed, is in the log (or snapshot) of every later leader
              (proved so far: append_entries_are_leader_log_slices_partial, leader_completeness_partial_ack_matches_leader_log,
              log_terms_bounded_and_monotone_partial and the node-level mechanism theorems above);
-   clause 4  state_machine_safety : no two nodes hand different entries at the same index to TakeNewlyCommitted;
+   clause 4  state_machine_safety : no two nodes hand different entries at the same index to TakeNewlyCommitted
+             (proved so far: state_machine_safety_partial_same_index_and_term; missing: equal index implies equal term);
    log_matching across snapshot installation / log trim and across AddNode/RemoveNode;
    commit_le_last as a reachable-state invariant;
    and the extension of election_safety to AddNode/RemoveNode (quorums of Members and Members +/- 1 intersect).
